@@ -128,6 +128,8 @@ pub fn record_program(tw: &mut TraceWriter, rng: &mut Rng, subject: &str, big: b
 	let (ptrace, pbuild) = pick_params(rng, subject, big);
 	let kind = input_kind(subject);
 	let mut g = Gen::new(rng.u64(), positive_only(subject) || kind == 'c');
+	// candle-fed methods (TR, HeikinAshi, ADI, ...) also see gaps followed by a bar without a range, in every other program
+	g.doji_gaps = kind == 'c' && round % 2 == 1;
 	let init = g.input(kind);
 	// Correct floating-point code is exactly invariant under scaling of its inputs by a power of two (away from
 	// over/underflow): some programs run the real method on prices scaled by 2^e and log the unscaled values, so an
